@@ -379,7 +379,10 @@ pub fn check_proxy(run: &mut Run) {
                     if relayed {
                         viol.push(("C03".into(), "request recorded for the proxy's own address relayed".into(), rq.tok.clone()));
                     } else if let Some(st) = status {
-                        if st != 403 && !traversal && !provision {
+                        // (right after start the redirector has not published its map object yet: the proxy cannot look
+                        // any record up, treats the connection as unattributed and answers 421 - also a refusal)
+                        let before_redirector = st == 421 && plan["variant"] == "unsettled" && cr.t_connect_ns < 5_000_000_000;
+                        if st != 403 && !traversal && !provision && !before_redirector {
                             viol.push(("C03".into(), "self-destination not refused with 403".into(), format!("tok={} status={}", rq.tok, st)));
                         }
                     }
@@ -418,6 +421,10 @@ pub fn check_proxy(run: &mut Run) {
                             if why.starts_with("key id and MAC name different keys") {
                                 if on("C10") || on("C04") {
                                     viol.push(("C10".into(), "authorization header pairs the id of one key with a MAC computed under another".into(), format!("tok={} header names {}; {}: {} {}", rq.tok, guid, why, m.method(), m.target())));
+                                }
+                                if on("C04") {
+                                    // ... which also means the host cannot recompute and accept it
+                                    viol.push(("C04".into(), "authorization header does not verify under the key it names".into(), format!("tok={} header names {}; {}: {} {}", rq.tok, guid, why, m.method(), m.target())));
                                 }
                             } else if on("C04") || on("C10") {
                                 viol.push(("C04".into(), "authorization header does not verify".into(), format!("tok={} guid={} {}: {} {}", rq.tok, guid, why, m.method(), m.target())));
@@ -525,6 +532,19 @@ pub fn check_proxy(run: &mut Run) {
 
             // ---------------- C15 refusal status
             if on("C15") {
+                if too_large && !relayed {
+                    // byte level: nothing of an over-limit body goes upstream, not even as an unfinished request. Upstream
+                    // connections the agent opened towards this request's destination while it was outstanding and that
+                    // never carried a complete request must not have carried more than a request head
+                    let t_lo = cr.t_connect_ns;
+                    let t_hi = res.and_then(|r| r.resp.as_ref().map(|_| r.t_resp_ns)).unwrap_or(u64::MAX);
+                    let complete: std::collections::BTreeSet<u64> = h.log.iter().map(|r| r.conn).collect();
+                    for ci in all_infos.iter() {
+                        if ci.initiator.tgid == vrt::procs::AGENT_PID && ci.actual_dst.to_string() == recorded_dst && ci.opened_ns >= t_lo && ci.opened_ns <= t_hi && !complete.contains(&ci.id) && ci.bytes_out > 64 * 1024 && ci.faults.is_empty() {
+                            viol.push(("C15".into(), "part of an over-limit body sent upstream".into(), format!("tok={} len={} limit={}: upstream connection {} to {} carried {} bytes and no complete request", rq.tok, body_len, limit, ci.id, ci.actual_dst, ci.bytes_out)));
+                        }
+                    }
+                }
                 if too_large {
                     bump!("c15.over");
                     if let Some(st) = status {
@@ -644,6 +664,11 @@ pub fn check_proxy(run: &mut Run) {
                 }
             }
             let _ = ri;
+            // the host closed the upstream connection after answering this request (scripted): the proxy keeps one
+            // upstream connection per client connection, so what follows on this client connection meets a dead one
+            if h.resp_specs.get(&rq.tok).map(|s| s.close_after || s.close_delimited).unwrap_or(false) {
+                conn_disturbed = true;
+            }
         }
     }
 
